@@ -115,7 +115,7 @@ func init() {
 		NotDecided:  "routing under all interleavings; that grpc-go connects to the address it was given.",
 	})
 	register(&propDef{ID: "C08",
-		Rules: []func(*Ctx){ruleWindows, onlyObligations(ruleRunDispatch, func(o *Obligation) bool { return o.Func == "GRPCBroker.Run" || o.Func == "" }), ruleKnockTable, ruleMuxOnlyGRPC, ruleIDRoles, ruleDeadline, ruleLockPair, ruleGetOrCreate,
+		Rules: []func(*Ctx){onlyObligations(ruleClose1, func(o *Obligation) bool { return strings.HasPrefix(o.Func, "grpcmux.") || strings.Contains(o.Construct, "grpcmux.") }), ruleWindows, onlyObligations(ruleRunDispatch, func(o *Obligation) bool { return o.Func == "GRPCBroker.Run" || o.Func == "" }), ruleKnockTable, ruleMuxOnlyGRPC, ruleIDRoles, ruleDeadline, ruleLockPair, ruleGetOrCreate,
 			ruleOrderO8, ruleMuxSer, ruleSlot, ruleIDKnock, guardOn("grpcmux.", "GRPCBroker.serverStreams", "GRPCBroker.clientStreams"),
 		},
 		Technique:   "dominance query (listener registration before knock goroutine), must-held lockset for the serialised dial, channel-capacity check, id origin resolution",
@@ -139,7 +139,7 @@ func init() {
 		Assume:      []string{"bufio.Reader.ReadLine returns a non-nil error only at EOF or read failure", "bufio.Scanner stops with ErrTooLong at a 64 KiB token"},
 	})
 	register(&propDef{ID: "C11",
-		Rules:       []func(*Ctx){ruleNoCloseWriter, scoped(ruleBoundScoped, fnIn("grpcStdioServer.StreamStdio", "grpcStdioClient.Run", "copyChan")), ruleDrainSink, ruleDefaults, ruleStdioSequential, ruleDeadline, ruleCtx, ruleStdioWiring, ruleFresh, ruleCopyChan},
+		Rules:       []func(*Ctx){ruleStdioDelivery, ruleNoCloseWriter, scoped(ruleBoundScoped, fnIn("grpcStdioServer.StreamStdio", "grpcStdioClient.Run", "copyChan")), ruleDrainSink, ruleDefaults, ruleStdioSequential, ruleDeadline, ruleCtx, ruleStdioWiring, ruleFresh, ruleCopyChan},
 		Technique:   "label propagation (stdout/stderr) over resolved fields, parameters and constants; allocation-site-in-loop check; statement ordering in the chunk loop",
 		Explanation: "Decides the wiring and aliasing conditions: every edge of the stdio path joins equal labels (os.Pipe pair -> os.Stdout/os.Stderr and the server's Stdout/Stderr fields -> stdoutCh/stderrCh -> STDOUT/STDERR tags -> host stdout/stderr writers <- SyncStdout/SyncStderr; net/rpc stream 0/1 on both ends) (R-TABLE/stdio); the chunk sent on the channel is backed by an array declared inside the loop body, so a later read cannot overwrite bytes in flight (R-FRESH); data[:n] is sent before the error of the same read is acted on and the hand-off is an unconditional blocking send (O10). Every loop of the stdio path forwards the chunk it received itself (no goroutine per chunk: R-ORDER/stdio); no absolute deadline stays armed on the stdio streams (R-DEADLINE). Every non-empty read is forwarded (guard n > 0); NewClient stores a default only into the field it found unset (R-DEFAULTS). No value held as an io.Writer is asserted to a closer (R-OWN/writer); the context of the long-lived stdio stream is the context parameter as received (R-CTX); the stdio handlers' waits have a cancellation arm (R-BOUND).",
 		NotDecided:  "byte-exactness and ordering themselves (gRPC stream, yamux and io.Copy contracts); data written before the host attaches.",
